@@ -15,6 +15,14 @@ def degenerate_upper_end(table, xs):
         if x == k[na] and k[na - 1] == k[na]: return True
     return False
 
+def interior(table, xs, cs):
+    """hypothesis AllInterior of C01_rounding_envelope_partial: every coordinate inside a non-empty knot interval of the fully
+    supported range (generated knot vectors are non-decreasing)"""
+    for d, x, c in zip(table["dims"], xs, cs):
+        k, o, nk = d["knots"], d["order"], d["nknots"]
+        if not (o <= c and c + o + 2 <= nk and k[c] <= x <= k[c + 1] and k[c] < k[c + 1]): return False
+    return True
+
 def check_value_line(ctx, table, c, i, m, n, st, mask_modes=False):
     """c: case line 'V prec mask x.. c..' ; i: impl bits ; m: model line."""
     w = c.split(); prec = w[1]; nd = table["ndim"]
@@ -46,6 +54,12 @@ def check_value_line(ctx, table, c, i, m, n, st, mask_modes=False):
         err = abs(Fraction(v) - spec)
         bound = K * u * mag + eta * nterms * (cmax + 1) * (nd + 2)
         if mag > 0 and not known: st["worst_ratio"] = max(st["worst_ratio"], float(err / (u * mag)) / K if err > eta * nterms * (cmax + 1) * (nd + 2) else 0.0)
+        if not mask_modes and w[2] == "0" and mag > 0 and interior(table, xs, cs):
+            # the theorem's bound (C01_rounded_eval_near_spec_partial with C01_envelope_linear: 2*K*eps*S, K = 3+ndim(7 maxorder+3)+2 N)
+            eps = u / (1 - u); Kthm = 3 + nd * (7 * maxo + 3) + 2 * nterms
+            st["interior_cases"] = st.get("interior_cases", 0) + 1
+            if 2 * Kthm * eps <= 1 and err > eta * nterms * (cmax + 1) * (nd + 2):
+                st["worst_ratio_proved"] = max(st.get("worst_ratio_proved", 0.0), float(err / (2 * Kthm * eps * mag)))
         if err > bound:
             what = "|impl - spec| = %.6g exceeds the rounding envelope %.6g (impl %.17g, exact %.17g)" % (float(err), float(bound), v, float(spec))
     if what:
@@ -115,8 +129,10 @@ def run(ctx):
     ctx.coverage["input_distribution"] = dist
     ctx.coverage["bit_exact_values"] = st["values"] - st["bit_mismatch"]
     ctx.coverage["worst_envelope_ratio"] = st["worst_ratio"]
+    ctx.coverage["interior_value_cases"] = st.get("interior_cases", 0)
+    ctx.coverage["worst_ratio_vs_proved_bound_interior"] = st.get("worst_ratio_proved", 0.0)
     ctx.coverage["known_finding_cases"] = st["known_cases"]
-    ctx.assumptions += ["floating-point rounding: envelope K*u*S with K=%d*(N_terms+4*ndim*(maxorder+1)) plus an absolute underflow term; assumed, not proved" % K_BASE,
+    ctx.assumptions += ["floating-point rounding: envelope K*u*S with K=%d*(N_terms+4*ndim*(maxorder+1)) plus an absolute underflow term; proved for value evaluation at interior points without underflow (C01_rounding_envelope_partial: the proved bound 2*K_thm*eps*S is below this envelope; the worst measured error/proved-bound ratio on interior cases is reported), measured elsewhere (margins, underflow)" % K_BASE,
                         "compiler: no FMA contraction / x87 (checked by the bit-exact tie)"]
 
 def replay(ctx, path, line_checker=check_value_line):
